@@ -31,6 +31,10 @@ func (self ValueList) Display() (string, *VmInterrupt) {
 }
 
 func (self ValueList) IsEqual(other Value) (bool, *VmInterrupt) {
+	// values of different kinds meet inside any-objects and `any` lists: they are not equal
+	if other.Kind() != self.Kind() {
+		return false, nil
+	}
 	otherList := other.(ValueList)
 	// check length
 	if len(*otherList.Values) != len(*self.Values) {
